@@ -53,9 +53,26 @@ def yaml_float(v):
     return t
 
 
+_CALLS = [0]
+
+
 def run_cli_to_text(ctx, argv, name):
+    import io
+
     out = os.path.join(ctx.workdir, name)
-    status, exc = data.cli(list(argv) + ['-o', out])
+    _CALLS[0] += 1
+    argv = list(argv)
+    if _CALLS[0] % 5 == 0:
+        argv = argv[:1] + ['-v', '--logfile', os.path.join(ctx.workdir, 'pest.log')] + argv[1:]
+    if _CALLS[0] % 3 == 0:
+        # the default: output on standard output
+        buf = io.StringIO()
+        status, exc = data.cli(argv, stdout=buf)
+        ctx.rec.hit('cli-output-on-stdout')
+        if exc is not None or status != 0:
+            return None, (core.describe_exception(exc) if exc else {'status': status})
+        return buf.getvalue(), None
+    status, exc = data.cli(argv + ['-o', out])
     gc.collect()
     if exc is not None or status != 0:
         return None, (core.describe_exception(exc) if exc else {'status': status})
